@@ -44,7 +44,11 @@ Definition step_main (cb : callbacks) (hashlen : nat) (fi : finfo) (s : ust) : s
             match assign cb NValue (n_end n) (n_text n) fi with
             | Ok (v, rest) =>
               let n' := match rest with Some t => {| n_end := n_end n; n_text := t |} | None => n end in
-              match store fi v s (u_frags s) (u_idx s) (u_nv s) (u_nr s) (Some (before ++ n' :: after)) (ngv - 1) greq with
+              let frags' := match fr, rest with
+                            | UV _, Some _ => set_frag (u_frags s) (u_idx s) (UV n')
+                            | _, _ => u_frags s
+                            end in
+              match store fi v s frags' (u_idx s) (u_nv s) (u_nr s) (Some (before ++ n' :: after)) (ngv - 1) greq with
               | Ok s' => Next s' | Err e => Fail e | Panic => Crash
               end
             | Err e => Fail e
